@@ -61,6 +61,9 @@ def frame(variant):
     df = pd.DataFrame({"f": f, "g": g, "h": h, "k": k, "x": x, "z": z, "y": [0.1, 0.4, 0.2, 0.9, 0.5, 0.3, 0.8, 0.6]})
     df["o"] = pd.Categorical(df["f"], categories=["c", "a", "b"], ordered=True)
     df["xb"] = [3e7 + v for v in (0.25, -1.5, 0.75, 2.0, -0.5, 1.25, -2.25, 0.0)]  # level huge compared with the spread
+    df["ib"] = np.array([2 ** 53 + 1 + 2 * i for i in (3, 0, 5, 1, 7, 2, 6, 4)], dtype="int64")  # integers a float64 cannot hold
+    df["i8"] = np.array([100, -7, 25, 3, -120, 64, 9, 11], dtype="int8")
+    df["j8"] = np.array([2, 19, -5, 40, 1, -2, 14, 11], dtype="int8")
     if variant == "cat":
         df["f"] = pd.Categorical(df["f"], categories=["c", "b", "a"])
         df["g"] = pd.Categorical(df["g"], categories=["g2", "g1"], ordered=True)
@@ -118,6 +121,7 @@ def pool(tier):
         "y ~ (0 + f | g + h) + (1 | h)", "y ~ (1 | g) + (0 + f | g + h)", "y ~ (f | g + h)", "y ~ (0 + f | g/h) + (1 | g)", "y ~ (0 + o | h + g) + (x | g)",
         "y ~ f/g", "y ~ (f + g):h + f", "y ~ f/x + (f | g)", "y ~ (f + g)*scale(x)",
         "y ~ (1 | g:h) + (0 + x | h:g)", "y ~ (x | g:h) + (0 + f | h:g)", "y ~ (1 | I(k):g)", "y ~ (x | np.floor(z))", "y ~ (0 + x | I(k)) + (1 | np.round(x))",
+        "y ~ 0 + ib", "y ~ 0 + ib + k", "y ~ 0 + C(k):ib", "y ~ 0 + k + (0 + ib | g)", "y ~ i8:j8", "y ~ 0 + i8 + i8:j8 + (0 + i8:j8 | g)", "y ~ i8*k",
         "y ~ I(f)", "y ~ 0 + up(f)", "y ~ up(f):x", "y ~ x + (x | up(g))", "y ~ (0 + I(f) | g)",
     ]
     # helper terms inserted for full rank whose numeric part is a stateful transform
@@ -191,10 +195,15 @@ def check_case(case, acc):
         acc.violation("design-exists", exc_sig(e), case, f"{f!r} ({variant}) raised {type(e).__name__}: {e}")
         return
     mats = []
+    exact = {}  # integer training matrices are also compared exactly (as Python integers)
     if dm.common is not None:
         mats.append(("common", dm.common, np.array(dm.common.design_matrix, dtype=float, copy=True)))
     if dm.group is not None:
         mats.append(("group", dm.group, np.array(dm.group.design_matrix, dtype=float, copy=True)))
+    for which, M, _ in mats:
+        raw = np.asarray(M.design_matrix)
+        if raw.dtype.kind in "iu":
+            exact[which] = [[int(v) for v in row] for row in raw.tolist()]
     problems = {}
     nframes = 0
     variants = []
@@ -214,10 +223,15 @@ def check_case(case, acc):
             acc.calls += 1
             acc.traces += 1
             try:
-                got = np.asarray(M.evaluate_new_data(nd).design_matrix, dtype=float)
+                raw = np.asarray(M.evaluate_new_data(nd).design_matrix)
+                got = np.asarray(raw, dtype=float)
             except Exception as e:
                 problems.setdefault(("rows-reproduced", exc_sig(e)), f"{f!r} ({variant}): {which}.evaluate_new_data on rows {idx} raised {type(e).__name__}: {e}")
                 continue
+            if which in exact and got.shape == train[idx].shape:
+                ints = [[int(v) for v in row] for row in raw.tolist()]
+                if ints != [exact[which][i] for i in idx]:
+                    problems.setdefault(("rows-reproduced", "integers"), f"{f!r} ({variant}): {which} on rows {idx}: the integer training matrix is not reproduced exactly (e.g. {ints[0][:3]} vs {exact[which][idx[0]][:3]})")
             want = train[idx]
             if got.shape != want.shape:
                 problems.setdefault(("rows-reproduced", "shape"), f"{f!r} ({variant}): {which} on rows {idx} has shape {got.shape}, training rows have {want.shape}")
